@@ -137,6 +137,7 @@ package app
 //@   assigns p.started, closed(p.procStartedChan), loggerOpen(p.logger)
 
 //@ func (p *Process) stopProbes
+//@   ensures flags-kept: monotone("abool")
 //@   assigns abool(p.liveProber.stopped), abool(p.readyProber.stopped)
 //@ func (p *Process) startProbes
 //@   assigns abool(p.liveProber.stopped), abool(p.readyProber.stopped), spawned[*]
@@ -172,6 +173,7 @@ package app
 //@   ensures started-released: closed(p.procStartedChan) || cancelled(p.procRunCtx)
 //@   ensures nocause: okCancels() == old(okCancels())
 //@   ensures health: p.procState.Health == old(p.procState.Health) || p.procState.Health == "-"
+//@   ensures flags-kept: monotone("abool")
 //@   ensures unlocked(p)
 //@   assigns p.done, p.waitForStoppedFn, p.procState.Status, p.procState.ExitCode, p.procState.Health, abool(p.liveProber.stopped), abool(p.readyProber.stopped), loggerOpen(p.logger),
 //@           p.procState.SystemTime, p.procState.Age, p.procState.Name, p.procState.Mem, p.procState.CPU, p.procState.IsRunning, p.procState.IsElevated, p.procState.PasswordProvided,
@@ -242,6 +244,7 @@ package app
 //@   ensures runctx: cancelReadinessFuncs ==> cancelled(p.procRunCtx)
 //@   ensures runctx-internal: !cancelReadinessFuncs && st0 != "Pending" ==> cancelCalls(p.procRunCtx) == old(cancelCalls(p.procRunCtx))
 //@   ensures keepstopflag: abool(p.isStopped) == old(abool(p.isStopped))
+//@   ensures flags-kept: monotone("abool")
 //@   ensures health: p.procState.Health == old(p.procState.Health) || p.procState.Health == "-"
 //@   ensures stops-mono: stops() >= old(stops()) && runs() >= old(runs())
 //@   ensures notrunning: !isRunningState(st0) ==> stops() == old(stops()) && runs() == old(runs()) && result == nil
@@ -258,6 +261,7 @@ package app
 //@ func (p *Process) shutDown
 //@   requires procWF(p) && unlocked(p)
 //@   ensures cancelled(p.procRunCtx) && unlocked(p) && abool(p.isStopped) == old(abool(p.isStopped))
+//@   ensures flags-kept: monotone("abool")
 //@ func (p *Process) internalStop
 //@   requires procWF(p) && unlocked(p)
 //@   ensures unlocked(p) && (old(p.procState.Status) != "Pending" ==> cancelCalls(p.procRunCtx) == old(cancelCalls(p.procRunCtx)))
@@ -433,14 +437,47 @@ package app
 //@ ghost shutdownCalls() int
 //@ define exitTrigger(code int, c *types.ProcessConfig) bool = (code != 0 && c.RestartPolicy.Restart == "exit_on_failure") || c.RestartPolicy.ExitOnEnd
 
+// C03: a project shutdown flags every registered process as not-to-be-restarted BEFORE the first one is stopped,
+// then requests the stop of every one of them (run context cancelled), and only then cancels the application context.
+//@ define listWF(order []*Process) bool = forall i int {order[i]} :: 0 <= i && i < len(order) ==> order[i] != nil && procWF(order[i])
+//@ define inOrder(order []*Process, q *Process) bool = exists i int :: 0 <= i && i < len(order) && order[i] == q
 //@ func (p *ProjectRunner) ShutDownProject
-//@   flag trusted
 //@   requires noLocks() && runnerWF(p)
 //@   param cancelAppFn as cancelfunc
 //@   ensures called: shutdownCalls() == old(shutdownCalls()) + 1
+//@   ensures flagged: !p.isOrderedShutDown ==> (forall k string :: k in p.runningProcesses ==> abool(p.runningProcesses[k].isStopped))
+//@   ensures stop-requested: !p.isOrderedShutDown ==> (forall k string :: k in p.runningProcesses ==> cancelled(p.runningProcesses[k].procRunCtx))
+//@   ensures app-cancelled: cancelled(cancelOf(p.cancelAppFn))
 //@   ensures nolocks: noLocks()
 //@   sets shutdownCalls() := shutdownCalls() + 1
-//@   assigns everything_but starts[*], gateOpen[*], wasSkipped[*], app.ProjectRunner.exitCode[*], app.ProjectRunner.exitCodeSet[*], types.RestartPolicyConfig.Restart[*], types.RestartPolicyConfig.ExitOnEnd[*], types.RestartPolicyConfig.ExitOnSkipped[*], app.ProjectRunner.runningProcesses[*], app.ProjectRunner.doneProcesses[*]
+//@   loop 1 invariant noLocks1: forall m ref :: m != addr(p.runProcMutex) ==> !held(m)
+//@   loop 1 invariant held(p.runProcMutex) && runnerWF(p)
+//@   loop 1 invariant forall k string :: seen(k) && k in p.runningProcesses ==> inOrder(shutdownOrder, p.runningProcesses[k])
+//@   loop 1 invariant listWF(shutdownOrder)
+//@   loop 2 invariant idx >= -1
+//@   loop 3 invariant idx >= -1 && held(p.runProcMutex) && (forall m ref :: m != addr(p.runProcMutex) ==> !held(m))
+//@   loop 3 invariant forall j int :: 0 <= j && j <= idx ==> abool(shutdownOrder[j].isStopped)
+//@   assigns everything_but starts[*], gateOpen[*], wasSkipped[*], app.ProjectRunner.exitCode[*], app.ProjectRunner.exitCodeSet[*], types.RestartPolicyConfig.Restart[*], types.RestartPolicyConfig.ExitOnEnd[*], types.RestartPolicyConfig.ExitOnSkipped[*], app.ProjectRunner.runningProcesses[*], app.ProjectRunner.doneProcesses[*], heap(MapDom.Str), heap(MapVal.Str.ptr.app.Process), types.ProcessConfig.ReplicaName[*]
+
+// the visitor of the ordered branch only ever appends well-formed registered processes
+//@ func (p *ProjectRunner) ShutDownProject$1
+//@   preserves wf: runnerWF(p)
+//@   preserves listwf: listWF(shutdownOrder)
+
+// called with runProcMutex held: requests the stop of every listed process; a do-not-restart flag that is set stays set
+//@ func (p *ProjectRunner) shutDownAndWait
+//@   requires locks: held(p.runProcMutex) && (forall m ref :: m != addr(p.runProcMutex) ==> !held(m))
+//@   requires wf: listWF(shutdownOrder)
+//@   ensures stop-requested: !p.isOrderedShutDown ==> (forall i int :: 0 <= i && i < len(shutdownOrder) ==> cancelled(shutdownOrder[i].procRunCtx))
+//@   ensures flags-kept: monotone("abool")
+//@   ensures locks: held(p.runProcMutex) && (forall m ref :: m != addr(p.runProcMutex) ==> !held(m))
+//@   loop 1 invariant idx >= -1 && held(p.runProcMutex) && (forall m ref :: m != addr(p.runProcMutex) ==> !held(m))
+//@   loop 1 invariant forall j int :: 0 <= j && j <= idx ==> cancelled(shutdownOrder[j].procRunCtx)
+//@   loop 1 invariant monotone("abool")
+// the waiter spawned per stopped process returns only after that process is done
+//@ func (p *ProjectRunner) shutDownAndWait$1
+//@   requires !held(pr.Mutex) && !held(pr.confMtx)
+//@   ensures pr.done
 
 //@ func (p *ProjectRunner) onProcessEnd
 //@   requires nolocks: noLocks()
@@ -449,7 +486,7 @@ package app
 //@   ensures notrigger: !exitTrigger(exitCode, procConf) ==> shutdownCalls() == old(shutdownCalls()) && p.exitCode == old(p.exitCode)
 //@   ensures first-trigger-wins: exitTrigger(exitCode, procConf) ==> p.exitCodeSet && p.exitCode == ite(old(p.exitCodeSet), old(p.exitCode), exitCode)
 //@   ensures nolocks: noLocks()
-//@   assigns everything_but starts[*], gateOpen[*], wasSkipped[*], types.RestartPolicyConfig.Restart[*], types.RestartPolicyConfig.ExitOnEnd[*], types.RestartPolicyConfig.ExitOnSkipped[*], app.ProjectRunner.runningProcesses[*], app.ProjectRunner.doneProcesses[*]
+//@   assigns everything_but starts[*], gateOpen[*], wasSkipped[*], types.RestartPolicyConfig.Restart[*], types.RestartPolicyConfig.ExitOnEnd[*], types.RestartPolicyConfig.ExitOnSkipped[*], app.ProjectRunner.runningProcesses[*], app.ProjectRunner.doneProcesses[*], heap(MapDom.Str), heap(MapVal.Str.ptr.app.Process), types.ProcessConfig.ReplicaName[*]
 
 //@ func (p *ProjectRunner) onProcessSkipped
 //@   requires noLocks() && runnerWF(p)
@@ -457,7 +494,7 @@ package app
 //@   ensures notrigger: !procConf.RestartPolicy.ExitOnSkipped ==> shutdownCalls() == old(shutdownCalls()) && p.exitCode == old(p.exitCode)
 //@   ensures first-trigger-wins: procConf.RestartPolicy.ExitOnSkipped ==> p.exitCodeSet && p.exitCode == ite(old(p.exitCodeSet), old(p.exitCode), 1)
 //@   ensures nolocks: noLocks()
-//@   assigns everything_but starts[*], gateOpen[*], wasSkipped[*], types.RestartPolicyConfig.Restart[*], types.RestartPolicyConfig.ExitOnEnd[*], types.RestartPolicyConfig.ExitOnSkipped[*], app.ProjectRunner.runningProcesses[*], app.ProjectRunner.doneProcesses[*]
+//@   assigns everything_but starts[*], gateOpen[*], wasSkipped[*], types.RestartPolicyConfig.Restart[*], types.RestartPolicyConfig.ExitOnEnd[*], types.RestartPolicyConfig.ExitOnSkipped[*], app.ProjectRunner.runningProcesses[*], app.ProjectRunner.doneProcesses[*], heap(MapDom.Str), heap(MapVal.Str.ptr.app.Process), types.ProcessConfig.ReplicaName[*]
 
 // C01/C05: the per-process goroutine — the command is launched only behind an open dependency gate;
 // a process whose gate stays closed is skipped (exit code 1) and never launched.
@@ -466,6 +503,7 @@ package app
 //@   ensures gated: starts() > old(starts()) ==> gateOpen(proc.procConf)
 //@   ensures skipped: !gateOpen(proc.procConf) ==> starts() == old(starts()) && wasSkipped(proc)
 //@   ensures removed: !(proc.procConf.ReplicaName in p.runningProcesses)
+//@   ensures remembered: proc.procConf.ReplicaName in p.doneProcesses && p.doneProcesses[proc.procConf.ReplicaName] == proc
 
 // ---------- C10: probe outcomes ----------
 //@ func (p *Process) onReadinessCheckEnd
@@ -495,6 +533,7 @@ package app
 //@   requires runnerWF(p)
 //@   ensures complete: forall q string, k string :: q in p.runningProcesses && k in p.runningProcesses[q].procConf.DependsOn && k in p.runningProcesses ==> recorded(p, result, k, q)
 //@   ensures fresh(result) && result != nil
+//@   assigns nothing
 //@ define recordedFor(p *ProjectRunner, rev map[string]map[string]*Process, k string, proc *Process) bool =
 //@    p.runningProcesses[k].procConf.ReplicaName in rev &&
 //@    proc.procConf.ReplicaName in rev[p.runningProcesses[k].procConf.ReplicaName] &&
